@@ -845,6 +845,10 @@ dt_strfdt(char *restrict buf, size_t bsz, const char *fmt, struct dt_dt_s that)
 		strf_xian:
 			/* short cut, just print the guy here */
 			bp = buf + __strfdt_xdn(buf, bsz, that);
+			if (UNLIKELY(bp >= buf + bsz)) {
+				/* number was cut short */
+				bp = buf + bsz - 1;
+			}
 			goto out;
 		case DT_BIZDA:
 			fmt = bizdahms_dflt;
@@ -1034,10 +1038,14 @@ dt_strfdt(char *restrict buf, size_t bsz, const char *fmt, struct dt_dt_s that)
 				LIKELY(!spec.bizda || orig.d.typ != DT_BIZDA)
 				? that : orig);
 
+			if (UNLIKELY(nd > (size_t)(eo - bp))) {
+				/* field was cut short */
+				nd = eo - bp;
+			}
 			bp += nd;
 			if (spec.ord) {
 				bp += __ordtostr(bp, eo - bp, nd);
-			} else if (spec.bizda) {
+			} else if (spec.bizda && bp < eo) {
 				/* don't print the b after an ordinal */
 				if (spec.ab == BIZDA_AFTER) {
 					*bp++ = 'b';
@@ -1047,6 +1055,9 @@ dt_strfdt(char *restrict buf, size_t bsz, const char *fmt, struct dt_dt_s that)
 			}
 		} else if (UNLIKELY(spec.rom)) {
 			bp += __strfd_rom(bp, eo - bp, spec, &d.sd, that.d);
+			if (UNLIKELY(bp > eo)) {
+				bp = eo;
+			}
 		}
 	}
 out:
@@ -1290,7 +1301,10 @@ dt_strfdtdur(
 			*bp++ = *fp_sav;
 		} else if (LIKELY(!spec.rom)) {
 			bp += __strfdt_dur(bp, eo - bp, spec, &d, that);
-			if (spec.bizda) {
+			if (UNLIKELY(bp > eo)) {
+				/* field was cut short */
+				bp = eo;
+			} else if (spec.bizda && bp < eo) {
 				/* don't print the b after an ordinal */
 				if (d.sd.flags.ab == BIZDA_AFTER) {
 					*bp++ = 'b';
